@@ -269,6 +269,23 @@ def run(ctx):
         bad = tag is not None and not (tag[:1].isdigit() or tag[:1] in "+-")
         ctx.ob("LABEL", "label-skipped-before-parse", not bad, f"parse::<u64>() input {show(a0)[:120]} " + (f"still starts with {tag!r}: the parse can never succeed and patch_length stays 0" if bad else "does not carry a non-numeric literal prefix"), fb.file, int(blk["sp"]["at"].split(":")[-2]), sample=True)
     ctx.floor("LABEL", "parse::<u64> sites feeding patch_length", n_parse, 1)
+    # the label is searched in the whole response: the number is followed by the CRLF CRLF that ends the part header, so
+    # a receiver cut at a header/body boundary no longer contains the terminator the number is cut at
+    recv = []
+    for p in Explorer(fb).explore():
+        for (_bb, callee, args, _res) in p.events:
+            if callee.split("::")[-1] in ("split_once", "find", "split") and len(args) >= 2:
+                lit = args[1]
+                while isinstance(lit, tuple) and lit[0] in ("ref", "deref"):
+                    lit = lit[1]
+                if isinstance(lit, tuple) and lit[0] == "ks" and lit[1] == LABEL:
+                    r0 = args[0]
+                    while isinstance(r0, tuple) and r0[0] in ("ref", "deref") and isinstance(r0[1], tuple):
+                        r0 = r0[1]
+                    recv.append(r0)
+        if recv:
+            break
+    ctx.ob("LABEL", "searched-in-whole-response", bool(recv) and all(r0 == ("p", 2) for r0 in recv), f"the label is searched in {[show(r0)[:80] for r0 in recv[:2]]}; must be the whole `encoded` text (the number's CRLF terminator lies at the header/body boundary)", fb.file, fb.line)
     # the parsed value reaches the patch_length field of the result
     ok = False
     for p in Explorer(fb).explore():
